@@ -178,8 +178,11 @@ impl MultiDomain {
                 return Err(DomainError::InvalidDomain);
             }
 
+            // hosts are resolved against the base domains case-insensitively, so overlap is case-insensitive too
+            let lower = domain.to_ascii_lowercase();
             for other in &v {
-                if domain.ends_with(other) || other.ends_with(domain) {
+                let other = other.to_ascii_lowercase();
+                if lower.ends_with(&other) || other.ends_with(&lower) {
                     return Err(DomainError::OverlappingSubdomains);
                 }
             }
